@@ -8,7 +8,9 @@ order; ephemeral parents are skipped by the code and never touched) and
 
   c18_expand_compute              expand (strip txns) (compute txns) = txns, |compute| = multiproofSize
   c18_numleaves_recovers_lengths  the numLeaves inference recovers every proof length (pure bit lemma)
-  c18_codec_roundtrip_partial     DecodeFrom ∘ EncodeTo = id at the level of leaves + hash stream
+  c18_codec_roundtrip_leaves      DecodeFrom ∘ EncodeTo = id at the level of leaves + hash stream
+  c18_codec_roundtrip             … on BYTES and transaction value trees, for any lawful transaction codec
+  c18_codec_roundtrip_c11         … instantiated with C11's V2Transaction codec
   c18_outline_id                  an outline with ANY subset omitted has the block's ID
   c18_missing_fresh               Missing of a fresh outline = the omitted hashes, block order
   c18_missing_exact               Complete reports exactly the still-missing hashes, block order
@@ -23,6 +25,8 @@ on v1 and on v2 transactions and never coincides across the kinds (collision fre
 import SiaProofs.Lemmas.Multiproof
 import SiaProofs.Lemmas.Outline
 import SiaProofs.Lemmas.TermHash
+import SiaProofs.Lemmas.TxTraverse
+import SiaProofs.Props.C11Irregular
 namespace C18
 open Sia.ElemAcc Sia.Multiproof Sia.Outline
 
@@ -54,18 +58,68 @@ theorem c18_numleaves_recovers_lengths (N : Nat) (leaves : List (MLeaf H))
       bitLen (l.index ^^^ inferNumLeaves leaves) - 1 = l.proof.length :=
   numLeaves_recovers N (fun l : MLeaf H => l.index) (fun l => l.proof.length) leaves hin
 
-/-- Full statement (design): `decode (encode txns) = txns` on bytes, hence block ID,
-    commitment and validity unchanged. Proved here at the level the multiproof code
-    works on: the element leaves and the hash stream — proofless leaves, inferred
-    `numLeaves`, multiproof — followed by any further data `tail`, decode to exactly the
-    original leaves and leave `tail` unread. Gap: the byte codecs of the proofless
-    transactions and of hashes/uint64 (C11's `c11_roundtrip`), and the lifting from leaves
-    to `V2Transaction` values; both are covered by the correspondence runs (encode→decode
-    compared bit for bit on generated blocks, ID/commitment/ValidateBlock unchanged). -/
-theorem c18_codec_roundtrip_partial (ls : List H) (leaves : List (MLeaf H)) (hv : ∀ l ∈ leaves, Valid ls l)
+/-- The codec at the level the multiproof code works on: the element leaves and the hash
+    stream — proofless leaves, inferred `numLeaves`, multiproof — followed by any further
+    data `tail`, decode to exactly the original leaves and leave `tail` unread.
+    (`c18_codec_roundtrip` below lifts this to bytes and transaction values.) -/
+theorem c18_codec_roundtrip_leaves (ls : List H) (leaves : List (MLeaf H)) (hv : ∀ l ∈ leaves, Valid ls l)
     (htag : ∀ a ∈ leaves, ∀ b ∈ leaves, a.tag = b.tag → a = b) (hn : ls.length < 2 ^ 64) (tail : List H) :
     decodeMP (encodeMP leaves).1 (encodeMP leaves).2.1 ((encodeMP leaves).2.2 ++ tail) = .ok (leaves, tail) :=
   codec_roundtrip ls leaves hv htag hn tail
+
+end
+
+/-! ### the codec on bytes and transaction values
+
+`SiaModel/Merkle/MultiproofBytes.lean` is `V2TransactionsMultiproof.EncodeTo/DecodeFrom` on
+bytes (proofless `EncodeSlice`, `WriteUint64(numLeaves)`, 32-byte hashes; `DecodeSlice`,
+`ReadUint64`, the index guard, proof lengths from `numLeaves`, `multiproofSize` hashes,
+`expandMultiproof`), `SiaModel/Merkle/TxTraverse.lean` is `forEachElementLeaf` on the VALUE
+TREE of a transaction slice (parents of siacoin inputs, siafund inputs, revisions,
+resolutions and — for storage proofs — the proof index, in that order; ephemeral parents
+skipped), with proofs written back through a lawful traversal (`txnsParents_ok`). -/
+
+section
+variable [Hasher Hash32]
+
+/-- **The multiproof codec round-trips on bytes**: for ANY transaction codec
+    `(encP, decP)` that round-trips on canonical values (C11 supplies it), any element-hash
+    function `eh` that does not read the proof, and any slice of transactions `t` (a value
+    tree) whose non-ephemeral parents carry the naive paths of one forest:
+    `DecodeFrom (EncodeTo t ‖ tail) = (t, tail)` — every proof restored bit for bit, hence
+    every hash over the transactions (block ID, commitment) unchanged.
+    Side conditions: `GoodTxns t` (parents have the element shape, 32-byte proof entries) and
+    canonicity of the proofless transactions — both hold for every canonical `t`. -/
+theorem c18_codec_roundtrip (eh : Nat → Sia.Codec.Val → Hash32) (heh : ∀ k el p, eh k (setProof el p) = eh k el)
+    (encP : Sia.Codec.Val → Sia.Codec.Bytes) (decP : Sia.Codec.Bytes → Except Sia.Codec.DecErr (Sia.Codec.Val × Sia.Codec.Bytes))
+    (CanonP : Sia.Codec.Val → Prop) (hrt : ∀ t rest, CanonP t → decP (encP t ++ rest) = .ok (t, rest))
+    (ls : List Hash32) (t : Sia.Codec.Val) (hgood : GoodTxns t)
+    (hv : ∀ l ∈ (valOps eh encP decP).leaves t, Valid ls l) (hn : ls.length < 2 ^ 64)
+    (hcanon : CanonP ((valOps eh encP decP).strip t)) (tail : Sia.Codec.Bytes) :
+    decodeBytes (valOps eh encP decP) (encodeBytes (valOps eh encP decP) t ++ tail) = .ok (t, tail) :=
+  bytes_roundtrip (valOps eh encP decP) CanonP GoodTxns (valOps_ok eh heh encP decP CanonP hrt) ls t hgood hv hn hcanon tail
+
+/-- the schema of `[]V2Transaction` in C11's codec model -/
+def txnsSch : Sia.Codec.Sch := .slice C11.v2txn
+
+/-- … with C11's V2Transaction codec (`c11_roundtrip` over the environment of irregular
+    codecs) as the payload codec, for any decoder slack `k`.
+    What remains outside: the environment `Irregular.env` has no `Types.SpendPolicy` codec
+    (C14 models policies separately), so canonical values here are transactions whose
+    inputs the codec model can express — for transactions with siacoin/siafund inputs the
+    instance needs a lawful policy codec plugged into the environment (the generic theorem
+    above already covers it: it only asks for `hrt`). -/
+theorem c18_codec_roundtrip_c11 (k : Nat) (eh : Nat → Sia.Codec.Val → Hash32) (heh : ∀ k el p, eh k (setProof el p) = eh k el)
+    (ls : List Hash32) (t : Sia.Codec.Val) (hgood : GoodTxns t)
+    (hv : ∀ l ∈ (valOps eh (Sia.Codec.enc Sia.Codec.Irregular.env txnsSch) (Sia.Codec.dec Sia.Codec.Irregular.env k txnsSch)).leaves t, Valid ls l)
+    (hn : ls.length < 2 ^ 64)
+    (hcanon : Sia.Codec.Canon Sia.Codec.Irregular.env txnsSch
+      ((valOps eh (Sia.Codec.enc Sia.Codec.Irregular.env txnsSch) (Sia.Codec.dec Sia.Codec.Irregular.env k txnsSch)).strip t))
+    (tail : Sia.Codec.Bytes) :
+    decodeBytes (valOps eh (Sia.Codec.enc Sia.Codec.Irregular.env txnsSch) (Sia.Codec.dec Sia.Codec.Irregular.env k txnsSch))
+      (encodeBytes (valOps eh (Sia.Codec.enc Sia.Codec.Irregular.env txnsSch) (Sia.Codec.dec Sia.Codec.Irregular.env k txnsSch)) t ++ tail) = .ok (t, tail) :=
+  c18_codec_roundtrip eh heh _ _ (Sia.Codec.Canon Sia.Codec.Irregular.env txnsSch)
+    (fun v rest hc => C11.c11_roundtrip C11.c11_env_ok k txnsSch rfl v rest hc) ls t hgood hv hn hcanon tail
 
 end
 
@@ -251,5 +305,31 @@ example : CommitOK exEnv exBlock := rfl
 example : ((outlineBlock exEnv exBlock [2] [3]).complete exEnv [9, 2, 8] [4, 3, 3]).1.txns = [1, 2] ∧
     ((outlineBlock exEnv exBlock [2] [3]).complete exEnv [9, 2, 8] [4, 3, 3]).2.1 = [] ∧
     ((outlineBlock exEnv exBlock [2] [3]).complete exEnv [9] [4]).2.1 = [(false, 2), (true, 3)] := by decide
+
+end C18
+
+namespace C18
+open Sia.ElemAcc Sia.Multiproof Sia.Codec
+
+/-! ### `c18_codec_roundtrip_c11`: the hypotheses are satisfiable -/
+
+/-- a constant hash (enough to exhibit a consistent instance; the theorem is for every `Hasher`) -/
+def constHasher : Hasher Hash32 := ⟨fun _ _ => default, fun _ _ _ => default⟩
+
+/-- one transaction with one expiring contract whose element is leaf 0 of a one-leaf forest -/
+def exSet : Val :=
+  let zero32 : Val := .bytes (List.replicate 32 0)
+  let zero64 : Val := .bytes (List.replicate 64 0)
+  let cur : Val := .pair (.nat 0) (.pair (.nat 0) .unit)
+  let out : Val := .pair cur (.pair zero32 .unit)
+  let se : Val := .pair (.nat 0) (.pair (.list []) .unit)
+  let fc : Val := .pair (.nat 1) <| .pair (.nat 2) <| .pair zero32 <| .pair (.nat 3) <| .pair (.nat 4) <|
+    .pair out <| .pair out <| .pair cur <| .pair cur <| .pair zero32 <| .pair zero32 <| .pair (.nat 5) <|
+    .pair zero64 <| .pair zero64 .unit
+  let res : Val := .pair (.pair se (.pair zero32 (.pair fc .unit))) (.pair (.pair (.nat 2) .unit) .unit)
+  .list [.list [.none, .none, .none, .none, .none, .none, .some (.list [res]), .none, .none, .none, .none]]
+
+example : Canon Irregular.env txnsSch exSet := by decide +kernel
+example : (txnsParents.get exSet).length = 1 := by decide
 
 end C18
